@@ -27,6 +27,24 @@ META = {
 }
 
 
+def _finish_value(P):
+    """the 'between code points' marker: the value cjet_init_checker() stores into start_byte (a named constant in the reference
+    tree, possibly folded into the code when the constant is made static)"""
+    init = P.fn("utf8_checker.c:cjet_init_checker")
+    for i in init.all_insts():
+        if i.op == "store":
+            t = P.term(init, i.a[1])
+            if t[0] == "field" and t[3] == "start_byte":
+                v = P.const_int(i.a[0])
+                if v is None:
+                    tv = P.term(init, i.a[0])
+                    if tv[0] == "load" and tv[1][0] == "global":
+                        v = P.globals[tv[1][1]]["init"][1]
+                if v is not None:
+                    return v & 0xFF
+    raise AnalysisBroken("cjet_init_checker does not store a constant into start_byte")
+
+
 def extract(ctx, P):
     f = P.fn("utf8_checker.c:is_byte_valid")
     init = P.fn("utf8_checker.c:cjet_init_checker")
@@ -68,7 +86,7 @@ def product(ctx, P, f, ev, st0):
     S = "struct.cjet_utf8_checker"
     SB = P.field_index(S, "start_byte")
     NB = P.field_index(S, "next_byte")
-    finish = P.globals["UC_FINISH"]["init"][1] & 0xFF
+    finish = _finish_value(P)
     key = lambda st: tuple(sorted(st.items()))
     start = (key(st0), REF.START)
     seen = {start: b""}
@@ -294,7 +312,7 @@ def fastpaths(ctx, P, trans, start):
 
 
 def entry_points(ctx, P):
-    finish = P.globals["UC_FINISH"]["init"][1] & 0xFF
+    finish = _finish_value(P)
     for key in ("utf8_checker.c:cjet_is_text_valid", "utf8_checker.c:cjet_is_byte_sequence_valid",
                 "utf8_checker.c:cjet_is_word_sequence_valid", "utf8_checker.c:cjet_is_word64_sequence_valid"):
         f = P.fn(key)
